@@ -96,7 +96,9 @@ func plan(prop, tier string, ncpu int, budgetOverride float64) *propPlan {
 	switch prop {
 	case "C09":
 		return &propPlan{level: "exploration", real: commonReal, stub: commonStub,
-			phases: [][]phase{{{engine: "hist", workers: ncpu, budgetS: b(40, 900), runs: 1 << 40}}},
+			phases: [][]phase{
+				{{engine: "hist3", workers: ncpu, budgetS: b(120, 900), runs: 1 << 40, mustDone: true}},
+				{{engine: "hist", workers: ncpu, budgetS: b(40, 900), runs: 1 << 40}}},
 			rule:   "Each evaluation is one simulated sequential history of 2-40 API calls (DecodePatch, Apply*, MergePatch, MergeMergePatches, CreateMergePatch, Equal, accessors) over shared buffers and reused Patch values, generated from run_seed = mix(VERIF_SEED, property, index), executed against the instrumented library in a world whose sync.Pool behaviour, map iteration order, cache temperature and caller buffer reuse are drawn per run; every call is compared with the same call run alone in a pristine world. A history is non-trivial when a pooled decoder/encoder/scanner state was actually recycled between calls (pool_reuse > 0) or a decoded Patch was applied more than once; distinct = distinct hash over (target, pool/map policies, every call with its argument texts and options).",
 			assume: []string{"the oracle is the implementation itself run alone in a pristine world: C09 is relational (same call => same outcome), a deterministically wrong result is C01/C02's business", "pool and map-order behaviours explored are within the documented contracts of sync.Pool and Go map iteration", "sampling, not enumeration: a clean batch is evidence, not proof"}}
 	case "C04":
@@ -625,7 +627,7 @@ func main() {
 		for k, v := range s.Enum {
 			agg.Enum[k] += v
 		}
-		if s.Engine == "enum" || s.Engine == "cli" {
+		if s.Engine == "enum" || s.Engine == "cli" || s.Engine == "hist3" {
 			enumWorkers++
 			if len(s.Exhaustive) > 0 {
 				enumComplete++
